@@ -272,7 +272,9 @@ static void set07Cap(const int *d, vcase *c)  /* incomplete LU, every initial ca
 {
     int e[10] = { 0, 0, 0, 0, 0, d[2], 0, 0, 0, 0 }; set07(e, c); c->aux = 3; c->aux2 = d[3]; c->lwork = d[4]; c->k = 0;
     if (d[0] < 9 * cap_ndev) { c->n = c->m = 8; c->pat = dev1_pattern(8, base_pattern(8, d[0] / cap_ndev), d[0] % cap_ndev); c->colperm = 0; }
-    else { int q = d[0] - 9 * cap_ndev; c->n = c->m = 12; c->gen = 2; c->pat = (uint64_t)(q / 2) + 500; c->colperm = (q & 1) ? 3 : 0; }     /* generated 12 x 12 patterns, NATURAL and COLAMD */
+    else if (d[0] < 9 * cap_ndev + cap_nrnd) { int q = d[0] - 9 * cap_ndev; c->n = c->m = 12; c->gen = 2; c->pat = (uint64_t)(q / 2) + 500; c->colperm = (q & 1) ? 3 : 0; }     /* generated 12 x 12 patterns, NATURAL and COLAMD */
+    else { int q = d[0] - 9 * cap_ndev - cap_nrnd; c->n = c->m = 12; c->gen = 1; c->colperm = 0;                       /* fill-heavy block followed by an independent block: L outgrows nnz(A) before later leaf supernodes */
+           int dv = q / 2; c->pat = (uint64_t)(9 + (q & 1)) | ((uint64_t)(dv ? ((dv - 1) * 29 + 7) % 144 + 1 : 0) << 8); }
     set_tune(c, TUNE_N8[d[1]]); c->fest = 1; c->tune[6] = 1; c->fillb = (int[]){ 0xA5, 0x00, 0xFF }[d[4] % 3];
 }
 static void set07R(const int *d, vcase *c)     /* tall matrices through xgstrf are covered by C02; here: row storage + equilibration through the driver */
@@ -280,13 +282,13 @@ static void set07R(const int *d, vcase *c)     /* tall matrices through xgstrf a
 static const family F07Q[] = {
     { "DEV_1(BASE(8)) first 6 deviations, NATURAL order x vals2 x tune{1-col supernodes,(2,1,2..),(2,4,4..),(3,1,4..)} x type4 x scenario x fill estimate 1 x {LU, ILU with fill factor 1}", 7, { 9, 2, 4, 4, NSCEN, 6, 2 }, set07N8 },
     { "DEV_1(BASE(6)), first 10 deviations x vals2 x colperm2 x tune3 x type4 x {LU,ILU} x scenario(5 fill estimates + 15 workspace lengths x align2 x prefill3) x ws-fill-estimate{1,2,3}", 9, { 9, 10, 2, 2, 3, 4, 2, NSCEN, 3 }, set07q },
-    { "incomplete LU, every initial capacity nnz(A)..4*nnz(A) of the growable arrays (fractional fill factor): {DEV_1(BASE(8)) first 3 deviations NATURAL, 12 generated 12x12 patterns x {NATURAL,COLAMD}} x tune4 x type4 x {NODROP, BASIC 1e-4, BASIC .5} x capacity offset 0..159", 5, { 9 * 3 + 24, 4, 4, 3, 160 }, set07Cap },
+    { "incomplete LU, every initial capacity nnz(A)..4*nnz(A) of the growable arrays (fractional fill factor): {DEV_1(BASE(8)) first 3 deviations NATURAL, 12 generated 12x12 patterns x {NATURAL,COLAMD}, 12x12 {arrow block + tridiagonal block, two arrow blocks} x dev{0..3}} x tune4 x type4 x {NODROP, BASIC 1e-4, BASIC .5} x capacity offset 0..159", 5, { 9 * 3 + 24 + 8, 4, 4, 3, 160 }, set07Cap },
 };
 static const family F07T[] = {
     { "DEV_1(BASE(8)), NATURAL order x vals2 x tune4 x type4 x scenario x fill estimate 1 x {LU, ILU with fill factor 1}", 7, { 9, 2, 4, 4, NSCEN, 65, 2 }, set07N8 },
     { "DEV_1(BASE(6)) x vals3 x colperm4 x tune8 x type4 x {LU,ILU} x scenario x ws-fill-estimate5 x heap-fill3", 10, { 9, 37, 3, 4, 8, 4, 2, NSCEN, 5, 3 }, set07 },
     { "row storage + equilibration: DEV_1(BASE(6)) x colperm4 x tune8 x type4 x scenario x fill5", 7, { 9, 37, 4, 8, 4, NSCEN, 5 }, set07R },
-    { "incomplete LU, every initial capacity nnz(A)..4*nnz(A) of the growable arrays (fractional fill factor): {DEV_1(BASE(8)) first 24 deviations NATURAL, 60 generated 12x12 patterns x {NATURAL,COLAMD}} x tune4 x type4 x {NODROP, BASIC 1e-4, BASIC .5} x capacity offset 0..239", 5, { 9 * 24 + 120, 4, 4, 3, 240 }, set07Cap },
+    { "incomplete LU, every initial capacity nnz(A)..4*nnz(A) of the growable arrays (fractional fill factor): {DEV_1(BASE(8)) first 24 deviations NATURAL, 60 generated 12x12 patterns x {NATURAL,COLAMD}, 12x12 {arrow block + tridiagonal block, two arrow blocks} x dev{0..19}} x tune4 x type4 x {NODROP, BASIC 1e-4, BASIC .5} x capacity offset 0..239", 5, { 9 * 24 + 120 + 40, 4, 4, 3, 240 }, set07Cap },
 };
 static long sz_07(int tier) { return tier ? fam_total(F07T, NF(F07T)) : fam_total(F07Q, NF(F07Q)); }
 static void dec_07(int tier, long idx, vcase *c) { cap_ndev = tier ? 24 : 3; cap_nrnd = tier ? 120 : 24; if (tier) fam_decode(F07T, NF(F07T), idx, c); else fam_decode(F07Q, NF(F07Q), idx, c); }
